@@ -428,7 +428,13 @@ def glue_contextlib() -> None:
                     )
             else:
                 try:
-                    frame = _extract.extract_outermost(mgr.gen)
+                    # Use the options of the enclosing extraction, if any
+                    options = _extract.current_options
+                    frame = _extract.extract_outermost(
+                        mgr.gen,
+                        with_contexts=options.with_contexts is not False,
+                        recurse_child_tasks=bool(options.recurse_child_tasks),
+                    )
                 except RuntimeError:  # no frames
                     pass
                 else:
